@@ -52,6 +52,7 @@ except KeyError:
 STRS = ['', 'nan', 'é\n"b c']
 CALLS = [((), False), ((), True), ((0,), False), ((999,), True), ((0, 1), False), ((1, 0), True), ((999, 999), False), ((2, 10), True),
          ((999,), False), ((10,), True)]
+CALLS_OVERRIDE = None     # C33 uses a longer list reaching the allele_pair_sqrt branch of the binary decoder
 ALLELES = [0, 1, 999]     # str()/int() of symbolic integers is intractable for CrossHair: alleles are chosen, not symbolic
 NDARRAYS = {
     'int32': [np.array([], dtype=np.int32), np.array([1, -2, 3], dtype=np.int32),
@@ -112,7 +113,8 @@ def mk(t, P, allow_missing=True):
         # one symbolic selector for all call positions of a value (k-th position is rotated by 3k): 10 shapes covering every
         # ploidy / phasing and allele order; per-position independent selectors made call composites explode (3888 paths)
         k = P.c['c']
-        al, ph = CALLS[(P.nx('c') + 3 * k) % len(CALLS)]
+        calls = CALLS_OVERRIDE or CALLS
+        al, ph = calls[(P.nx('c') + 3 * k) % len(calls)]
         return Call(list(al), phased=ph)
     if isinstance(t, T.tlocus):
         return Locus('X' if P.nx('b') else '1', P.nx('p'), RG)
@@ -282,7 +284,7 @@ SIG = ('i0: int, i1: int, j0: int, j1: int, p0: int, f0: float, f1: float, g0: i
        'a0: int, a1: int, q0: int, b0: bool, b1: bool, m0: bool, m1: bool, m2: bool, n0: int, n1: int')
 PRE = '''    pre: -2**63 <= i0 < 2**63 and -2**63 <= i1 < 2**63 and 1 <= p0 <= 500
     pre: -2**31 <= j0 < 2**31 and -2**31 <= j1 < 2**31
-    pre: 0 <= g0 < 4 and 0 <= g1 < 4 and 0 <= s0 < 3 and 0 <= s1 < 3 and 0 <= c0 < 10 and 0 <= a0 < 3 and 0 <= a1 < 3 and 0 <= q0 < 6
+    pre: 0 <= g0 < 4 and 0 <= g1 < 4 and 0 <= s0 < 3 and 0 <= s1 < 3 and 0 <= c0 < {CMAX} and 0 <= a0 < 3 and 0 <= a1 < 3 and 0 <= q0 < 6
     pre: 0 <= n0 <= 2 and 0 <= n1 <= {N1MAX}'''
 ARGS = '[i0, i1, j0, j1, p0], [f0, f1], [g0, g1, s0, s1, c0, a0, a1, q0], [b0, b1], [m0, m1, m2], [n0, n1]'
 ARGN = ['i0', 'i1', 'j0', 'j1', 'p0', 'f0', 'f1', 'g0', 'g1', 's0', 's1', 'c0', 'a0', 'a1', 'q0', 'b0', 'b1', 'm0', 'm1', 'm2', 'n0', 'n1']
@@ -355,7 +357,7 @@ TYPES = []
 
 
 def source(tier, ks, dict_missing=False):
-    pre = PRE.format(N1MAX=1 if tier == 'quick' else 2)
+    pre = PRE.format(N1MAX=1 if tier == 'quick' else 2, CMAX=len(CALLS))
     return (f'from harness import C32_json as H\nH.TYPES[:] = H.catalogue({tier!r})\n'
             'TYPES = H.TYPES\nroundtrip_ok = H.roundtrip_ok\nvalue = H.value\n'
             + '\n'.join(TEMPLATE.format(K=k, SIG=SIG, PRE=pre, ARGS=ARGS, DM=dict_missing) for k in ks))
